@@ -36,13 +36,21 @@
       ([C11_history_refines_map]; directory level: [C11_directory_history]); and
       no call of the history writes file contents, so that inode holds what the
       source held ([C11_history_keeps_data]).
-    Histories over sharded and stacked handles, the "first put since the key was
-    last absent" precision, and the attribution of every disappearance to a Second
+    - whole histories on a SHARDED cache (set, put, get; any oracles, any shard
+      chosen, any shard maintained): every hit is a descriptor on an inode that was
+      the source of a write to that key or was bound under that key's name when
+      the history started - never another key's value, from whichever of the key's
+      two shards it comes ([C11_sharded_history]); every other key's entry in every
+      shard directory keeps its binding or vanishes
+      ([C11_sharded_others_keep_or_vanish]).
+    Histories over stacked handles, the exact "latest set" precision on sharded
+    caches (per operation pair: [C11_sharded_set_then_get]), the "first put since
+    the key was last absent" precision, and the attribution of every disappearance to a Second
     Chance eviction of an over-capacity directory, are decided by the
     differential history runs against the map oracle (vlib/c11.py). *)
 From Coq Require Import List NArith ZArith String Bool Lia.
 From Kismet Require Import Pure.Hash FS.Fs FS.Prog Spec.Wp Ops.Ops Conc.Effect Proofs.HashProofs Proofs.NeverMasked
-  Proofs.KvFacts Seq.Plain Seq.Steps Seq.Bind Seq.Sane Proofs.KvSeq Proofs.KvShard Proofs.KvTemp Proofs.KvCap Proofs.KvHist.
+  Proofs.KvFacts Seq.Plain Seq.Steps Seq.Bind Seq.Sane Proofs.KvSeq Proofs.KvShard Proofs.KvTemp Proofs.KvCap Proofs.KvHist Proofs.KvShardOthers Proofs.KvShardKey.
 Import ListNotations.
 
 Theorem C11_sorted_pair : forall hash sec n, let '(a, b) := shard_ids hash sec n in a <> b.
@@ -299,6 +307,16 @@ Theorem C11_history_refines_map : forall cfg dir cap ops os w al,
   shist cfg dir ops os w al.
 Proof. intros cfg dir cap ops os w al Hw Hr Hc Hb. exact (stack_history_refines_map cfg dir cap Hw Hr Hc Hb ops os w al). Qed.
 
+(** ... from ANY start state, with the canonical abstraction of what the directory holds. *)
+Theorem C11_history_from_any_state : forall cfg dir cap ops os w,
+  s_writer cfg = Some (FPlain dir cap) -> s_readers cfg = [] -> s_checker cfg = None -> plainp dir = true ->
+  Forall (sop_wf dir) ops -> names_plain (w_fs w) ->
+  shist cfg dir ops os w (al_of (plain_cdir dir cap) (w_fs w)).
+Proof.
+  intros cfg dir cap ops os w Hw Hr Hc Hb Hwf Hpl.
+  exact (stack_history_refines_map cfg dir cap Hw Hr Hc Hb ops os w _ Hwf Hpl (HInv_al_of (plain_cdir dir cap) (w_fs w))).
+Qed.
+
 (** What [shist] says, on a short history that crosses two keys and both write
     APIs (a path-based set, then a put_temp_file of another key, then a lookup): *)
 Theorem C11_history_unfolded : forall cfg dir ka kb va vb fdb o1 o2 o3 w al,
@@ -369,6 +387,84 @@ Example C11_history_example :
   match rb with Ok (Some fd) => fdino (w_fs wb) fd | _ => None end = Some 3%nat /\
   name_of (w_fs wb) ["v"%string] = None /\ name_of (w_fs wb) ["u"%string] = None.
 Proof. vm_compute. repeat split; reflexivity. Qed.
+
+(** A sharded set / put, successful or not, under any fault, whatever shard it
+    chooses and whichever shard it then maintains: the entry of every OTHER key
+    in every shard directory keeps its binding or disappears - a sharded write
+    never binds another key's name. *)
+Theorem C11_sharded_others_keep_or_vanish : forall dir nsh total k v (which : bool) h n j f0 w o,
+  plainp dir = true -> valid_name (k_name k) = true -> plainp v = true -> (forall q, v <> dir ++ q) ->
+  valid_name n = true -> n <> k_name k ->
+  w_fs w = f0 -> names_plain f0 ->
+  let x := (dir ++ [format_id j]) ++ [n] in
+  let '(_, w', _, _) := run (sh_publish (if which then cd_set else cd_put) h dir nsh total k v) w o in
+  name_of (w_fs w') x = name_of f0 x \/ name_of (w_fs w') x = None.
+Proof.
+  intros dir nsh total k v which h n j f0 w o Hd Hk Hv Hout Hn Hne Hw Hpl x.
+  assert (Hx : plainp x = true) by (apply (dst_plain (shard_cdir dir nsh total j) n); [apply (dcd_plain dir nsh total Hd)|exact Hn]).
+  assert (Hxv : x <> v) by (intros E; unfold x in E; rewrite <- app_assoc in E; exact (Hout _ (eq_sym E))).
+  assert (Hxd : forall sid, x <> cd_base (shard_cdir dir nsh total sid) ++ [k_name k]).
+  { intros sid E. unfold x in E. cbn [cd_base shard_cdir] in E. apply app_inj_tail in E. destruct E as (_ & E). contradiction. }
+  assert (Hxl : List.length dir + 1 < List.length x) by (unfold x; rewrite !app_length; cbn; lia).
+  exact (sharded_others_keep_or_vanish dir nsh total k v Hd Hk Hv x Hx Hxv Hxd Hxl f0 which h w o Hw Hpl).
+Qed.
+
+(** ... and ANY entry of any shard directory - the key's own candidate entries in
+    particular - ends bound to what it was bound to, to nothing, or to the inode
+    the source named, whatever shard was chosen, under any fault. *)
+Theorem C11_sharded_entry_old_none_or_source : forall dir nsh total k v (which : bool) h n j i0 w o,
+  plainp dir = true -> valid_name (k_name k) = true -> plainp v = true ->
+  (forall q, v <> dir ++ q) -> (forall q, dir <> v ++ q) -> valid_name n = true ->
+  names_plain (w_fs w) -> (name_of (w_fs w) v = Some i0 \/ name_of (w_fs w) v = None) ->
+  let y := (dir ++ [format_id j]) ++ [n] in
+  let '(_, w', _, _) := run (sh_publish (if which then cd_set else cd_put) h dir nsh total k v) w o in
+  name_of (w_fs w') y = name_of (w_fs w) y \/ name_of (w_fs w') y = None \/ name_of (w_fs w') y = Some i0.
+Proof.
+  intros dir nsh total k v which h n j i0 w o Hd Hk Hv Hout Hnanc Hn Hpl Hs y.
+  assert (Hy : plainp y = true) by (apply (dst_plain (shard_cdir dir nsh total j) n); [apply (dcd_plain dir nsh total Hd)|exact Hn]).
+  assert (Hyv : y <> v) by (intros E; unfold y in E; rewrite <- app_assoc in E; exact (Hout _ (eq_sym E))).
+  assert (Hyl : List.length dir + 1 < List.length y) by (unfold y; rewrite !app_length; cbn; lia).
+  exact (sharded_entry_old_none_or_source dir nsh total k v Hd Hk Hv Hout Hnanc y Hy Hyv Hyl i0 _ which h w o Hpl Hs eq_refl).
+Qed.
+
+(** Whole histories on a sharded cache directory. *)
+Theorem C11_sharded_history : forall dir nsh total h ops os w al,
+  plainp dir = true -> Forall (shop_wf dir) ops -> names_plain (w_fs w) -> HInvS dir al (w_fs w) ->
+  shhist dir nsh total h ops os w al.
+Proof. intros dir nsh total h ops os w al Hd. exact (sharded_history_refines_map dir nsh total h Hd ops os w al). Qed.
+
+(** ... from ANY start state, with the canonical abstraction of what it holds. *)
+Theorem C11_sharded_history_from_any_state : forall dir nsh total h ops os w,
+  plainp dir = true -> Forall (shop_wf dir) ops -> names_plain (w_fs w) ->
+  shhist dir nsh total h ops os w (al_of_names (w_fs w)).
+Proof.
+  intros dir nsh total h ops os w Hd Hwf Hpl.
+  exact (sharded_history_refines_map dir nsh total h Hd ops os w _ Hwf Hpl (HInvS_al_of_names dir (w_fs w))).
+Qed.
+
+(** The same through the public stack API over a sharded write cache: set, put,
+    set_temp_file, put_temp_file, get, touch. *)
+Theorem C11_public_api_history_sharded : forall cfg dir nsh total ops os w,
+  s_writer cfg = Some (FSharded dir nsh total) -> s_readers cfg = [] -> s_checker cfg = None -> plainp dir = true ->
+  Forall (ssop_wf dir) ops -> names_plain (w_fs w) ->
+  sshist cfg ops os w (al_of_names (w_fs w)).
+Proof.
+  intros cfg dir nsh total ops os w Hw Hr Hc Hd Hwf Hpl.
+  exact (stack_sharded_history_refines_map cfg dir nsh total Hw Hr Hc Hd ops os w _ Hwf Hpl (HInvS_al_of_names dir (w_fs w))).
+Qed.
+
+(** What [shhist] says on [set a <- v; put b <- u; get a]: *)
+Theorem C11_sharded_history_unfolded : forall dir nsh total h ka kb va vb o1 o2 o3 w al,
+  shhist dir nsh total h [ShWrite true ka va; ShWrite false kb vb; ShGet ka] [o1; o2; o3] w al =
+  (let src := name_of (w_fs w) va in
+   let '(_, w1, _, _) := run (sh_publish cd_set h dir nsh total ka va) w o1 in
+   let al1 := upd al (k_name ka) (olist src ++ al (k_name ka)) in
+   let src2 := name_of (w_fs w1) vb in
+   let '(_, w2, _, _) := run (sh_publish cd_put h dir nsh total kb vb) w1 o2 in
+   let al2 := upd al1 (k_name kb) (olist src2 ++ al1 (k_name kb)) in
+   let '(r3, w3, _, _) := run (sh_get dir nsh total ka) w2 o3 in
+   (forall fd, r3 = Ok (Some fd) -> exists i, fdino (w_fs w3) fd = Some i /\ In i (al2 (k_name ka))) /\ True).
+Proof. reflexivity. Qed.
 
 (** Non-vacuity, sharded: two shards; the key's copy (inode 4, old value) lives in
     its SECONDARY shard, the primary shard is the less loaded one.  The set
